@@ -605,6 +605,16 @@ impl<'source> Parser<'source> {
     ) -> Result<Option<AstIndex>> {
         let result = self.parse_expression_start(&[], min_precedence, context)?;
 
+        // A range without a start value can be the first token of a continuation line, e.g.
+        //   x =
+        //     ..10
+        if result.is_none()
+            && let Some(peeked) = self.peek_token_with_context(context)
+            && matches!(peeked.token, Token::Range | Token::RangeInclusive)
+        {
+            self.consume_until_token_with_context(context);
+        }
+
         match self.peek_next_token_on_same_line() {
             Some(Token::Range | Token::RangeInclusive) => {
                 self.consume_range(result, context).map(Some)
